@@ -48,7 +48,10 @@ def gen(rng, tier):
         spec["remove"] = True  # the absence steps are deleted from the logs afterwards: every level must still add up
     if spec.get("history") is None and spec.get("backward") is None and rng.random() < 0.1:
         spec["getters_first"] = True  # the unfiltered get_*_list helpers are called before the run
-    if spec.get("history") is None and spec.get("backward") is None and not spec.get("getters_first") and rng.random() < 0.06:
+    if spec.get("history") is None and rng.random() < 0.06:
+        spec["model"]["worker_copies"] = True  # workers are shallow copies of one template object
+    if spec.get("history") is None and spec.get("backward") is None and not spec.get("getters_first") and not spec["model"].get("worker_copies") \
+            and rng.random() < 0.06:
         spec["two_fresh"] = True  # two freshly built projects in one process, each first run with initialize_log_info=False
     if rng.random() < 0.12:
         spec["reload_after"] = True  # ... and the accounting is a property of the logs, also of logs read back from a file
